@@ -1516,6 +1516,52 @@ def run_multi(ctx, exe, cases, cnt, var, cov, dist):
     shutil.rmtree(jbase, ignore_errors=True)
 
 
+def run_responses(ctx, exe, cov, dist):
+    """the client's reply reader alone: the real pcp_response() (harness op `resp`) against Pcp/Response.lean `callN` on the
+    BYTES a receiver writes -- positive replies, error records (`\\01` + text + newline) and non-fatal ones (any other first
+    byte) with texts of every length around the line buffers (LINEBUFSIZE 2048, BUFSIZ 8192) up to 9000 bytes, one and two
+    long records in a row, followed by positive replies.
+    oracle: a sequence whose texts are all shorter than PATH_MAX + NAME_MAX + 64 (the longest a receiver builds for a
+    sender that sends the names of existing files: `<target path>: <strerror>`) must be read back record by record, nothing
+    left over (seeded change C11-13)."""
+    B = pcp.BUFSIZ
+    limit = read_const("PCP_PATH_MAX") + read_const("PCP_NAME_MAX") + 64
+    lens = [0, 1, 80, 1000, 2030, 2045, 2046, 2047, 2048, 2049, 2050, 3000, 4000, 4096, limit - 1, B - 4, B - 3, B - 2, B - 1, B,
+            B + 1, 9000]
+    seqs = []
+    for n in lens:
+        for first in (b"\x01", b"x"):
+            seqs.append([(first, n)] + [None])
+            seqs.append([(first, n), (b"\x01", n), None, (first, 40), None])
+            seqs.append([None, (first, n), None, None])
+    ops, mlines, wants = [], [], []
+    for sq in seqs:
+        stream = b"".join(b"\0" if r is None else r[0] + bytes(97 + (i * 7 + r[1]) % 26 for i in range(r[1])) + b"\n" for r in sq)
+        ncalls = len(sq) + 2
+        ops.append(["resp %d %s" % (ncalls, hx(stream))])
+        mlines.append("resp %d %s" % (ncalls, hx(stream)))
+        wants.append("res=%s left=0" % ("".join("0" if r is None or r[0] != b"\x01" else "1" for r in sq) + "11"))
+    impl = run_batch([exe], ops, env=dict(os.environ, ASAN_OPTIONS="detect_leaks=0"))
+    mans = ctx.model("pcp", "".join(l + "\n" for l in mlines))
+    for sq, (ans, crash), m, want in zip(seqs, impl, mans, wants):
+        cov["evaluations"] += 1
+        dist["reply_reader_sequences"] = dist.get("reply_reader_sequences", 0) + 1
+        cj = dict(reply_stream=[("ack" if r is None else ("fatal" if r[0] == b"\x01" else "error") + " record, text of %d bytes" % r[1])
+                                for r in sq])
+        real = ans[0] if ans else "crash %s" % str(crash)[-200:]
+        fits = all(r is None or r[1] < limit for r in sq)
+        if fits and real != want:
+            ctx.offender("reply-reader:error-record-not-read-whole",
+                         "pcp_response() called on the reply stream %s: expected the records back one by one and the end of "
+                         "input after them (%s), got %s: part of an error line stays in the stream and is taken for the "
+                         "replies to later records" % (cj["reply_stream"], want, real), cj)
+        elif real != m:
+            ctx.disagreement("pcp response (Pcp/Response.lean callN)", "reply stream %s: real %s model %s" % (
+                cj["reply_stream"], real, m), cj)
+        if not fits:
+            dist["reply_reader_beyond_every_buffer"] = dist.get("reply_reader_beyond_every_buffer", 0) + 1
+
+
 def run_refused_sources(ctx, exe, cov, dist):
     """-r sources pcp_client.c refuses: pcp_expand_dirs/_rexpand_dir use stat(2) and end the client (errx) on anything that
     is neither a regular file nor a directory and on a link that points nowhere -- BEFORE the first byte is sent.
@@ -1660,6 +1706,7 @@ def run(ctx):
         for i in range(0, len(cases), 500):
             run_cases(ctx, exe, cases[i:i + 500], cnt, var, cov, dist, distinct)
         run_refused_sources(ctx, exe, cov, dist)
+        run_responses(ctx, exe, cov, dist)
         mcases += multi_corpus(len(mcases))
         mcases += [gen_multi(rng, len(mcases) + i) for i in range(40 if ctx.quick() else 800)]
         for i in range(0, len(mcases), 200):
